@@ -379,4 +379,477 @@ theorem C16_isolation_counterexample : ¬ C16_isolation_full asWritten := by
     [⟨.plain, [.peerIndex [⟨3, 65002⟩], .rib true 1 [(0, 2)]]⟩]).1
   revert this; decide
 
+/-! ## the peer index loop (`dumpreg` site)
+
+`processFileD d` / `runQueueD d` are `process_file` / the queue consumer with the peer index loop as
+written (`d = .asWritten`: `register()` + `update_info` per entry, no lookup — these *are*
+`processFile` / `runQueue`, so every theorem above speaks about them) or repaired
+(`d = .repaired`: `find_or_register_peer` per entry). Everything above that goes through `msgLoop`
+only does not depend on the site. -/
+
+theorem processFileD_asWritten (v : Variant) (parent : Nat) (reg : Reg) (f : File) :
+    processFileD .asWritten v parent reg f = processFile v parent reg f := by
+  simp only [processFileD, processFile, peerIndexLoop]
+
+theorem runQueueD_asWritten (v : Variant) (parent : Nat) (reg : Reg) (fs : List File) :
+    runQueueD .asWritten v parent reg fs = runQueue v parent reg fs := by
+  induction fs generalizing reg with
+  | nil => rfl
+  | cons f fs ih => simp only [runQueueD, runQueue, processFileD_asWritten, ih]
+
+/-! ### the register: lookups are stable, identities registered once stay registered once
+(the register lemmas of `Proofs/PipeMrt.lean`, restated here because that file imports this one) -/
+
+theorem Reg.find_eq (r : Reg) (par : Nat) (q : Peer) :
+    r.find (some par) q = (r.infos.find? (fun e => decide (e.2.1 = par ∧ e.2.2 = q))).map (·.1) := by
+  simp only [Reg.find]
+  split <;> rename_i h <;> rw [h] <;> rfl
+
+theorem Reg.find_register (r : Reg) (par par' : Nat) (p q : Peer) :
+    (r.register par p).1.find (some par') q =
+      match r.find (some par') q with
+      | some id => some id
+      | none => if par = par' ∧ p = q then some r.next else none := by
+  simp only [Reg.find_eq, Reg.register, List.find?_append]
+  cases r.infos.find? (fun e => decide (e.2.1 = par' ∧ e.2.2 = q)) with
+  | some e => rfl
+  | none =>
+    by_cases h : par = par' ∧ p = q
+    · simp [h]
+    · simp [h]
+
+/-- `find_or_register_peer`, as `process_message` and the repaired peer index loop use it. -/
+def Reg.lookupOrRegister (r : Reg) (par : Nat) (p : Peer) : Reg × Nat :=
+  match r.find (some par) p with
+  | some id => (r, id)
+  | none => r.register par p
+
+theorem Reg.lookupOrRegister_find (r : Reg) (par : Nat) (p : Peer) :
+    (r.lookupOrRegister par p).1.find (some par) p = some (r.lookupOrRegister par p).2 := by
+  unfold Reg.lookupOrRegister
+  cases h : r.find (some par) p with
+  | some id => exact h
+  | none => rw [Reg.find_register, h]; simp [Reg.register]
+
+theorem Reg.lookupOrRegister_mono (r : Reg) (par : Nat) (p q : Peer) (id : Nat)
+    (h : r.find (some par) q = some id) : (r.lookupOrRegister par p).1.find (some par) q = some id := by
+  unfold Reg.lookupOrRegister
+  cases r.find (some par) p with
+  | some _ => exact h
+  | none => rw [Reg.find_register, h]
+
+theorem msgLoop_update (v : Variant) (par : Nat) (reg : Reg) (p : Peer) (v6 : Bool) (ann wd : List Nat)
+    (a : Nat) (rest : List Rec) :
+    msgLoop v par reg (.msg p (.update v6 ann wd a) :: rest) =
+      ⟨(msgLoop v par (reg.lookupOrRegister par p).1 rest).reg,
+       .bulk (reg.lookupOrRegister par p).2 v6 ann (keptWd v ann wd) :: (msgLoop v par (reg.lookupOrRegister par p).1 rest).out,
+       (msgLoop v par (reg.lookupOrRegister par p).1 rest).status⟩ := by
+  simp only [msgLoop, Reg.lookupOrRegister]
+  cases reg.find (some par) p <;> rfl
+
+theorem lookupAll_cons (r : Reg) (par : Nat) (p : Peer) (ps : List Peer) :
+    lookupAll r par (p :: ps) =
+      ((lookupAll (r.lookupOrRegister par p).1 par ps).1,
+       (r.lookupOrRegister par p).2 :: (lookupAll (r.lookupOrRegister par p).1 par ps).2) := by
+  simp only [lookupAll, Reg.lookupOrRegister]
+  cases r.find (some par) p <;> rfl
+
+/-- A peer that the register answers an id for keeps that id through a peer index loop … -/
+theorem lookupAll_find_mono (par : Nat) (ps : List Peer) (r : Reg) (q : Peer) (id : Nat)
+    (h : r.find (some par) q = some id) : (lookupAll r par ps).1.find (some par) q = some id := by
+  induction ps generalizing r with
+  | nil => exact h
+  | cons p ps ih => rw [lookupAll_cons]; exact ih _ (r.lookupOrRegister_mono par p q id h)
+
+/-- … and through the messages pass of a file. -/
+theorem msgLoop_find_mono (v : Variant) (par : Nat) (recs : List Rec) (reg : Reg) (q : Peer) (id : Nat)
+    (h : reg.find (some par) q = some id) : (msgLoop v par reg recs).reg.find (some par) q = some id := by
+  induction recs generalizing reg with
+  | nil => exact h
+  | cons r recs ih =>
+    cases r with
+    | msg p m =>
+      cases m with
+      | update v6 ann wd a => rw [msgLoop_update]; exact ih _ (reg.lookupOrRegister_mono par p q id h)
+      | other => simpa [msgLoop] using ih reg h
+      | garbage => simpa [msgLoop] using ih reg h
+    | stateChange p old new => simpa [msgLoop] using ih reg h
+    | peerIndex ps => simpa [msgLoop] using ih reg h
+    | rib v6 pfx es => simpa [msgLoop] using ih reg h
+    | ribOther => simpa [msgLoop] using ih reg h
+    | localMsg => simpa [msgLoop] using h
+    | otherType => simpa [msgLoop] using h
+
+/-- The ids registered for peer `q` under unit `par`. -/
+def Reg.idsOf (r : Reg) (par : Nat) (q : Peer) : List Nat :=
+  (r.infos.filter fun e => e.2.1 = par ∧ e.2.2 = q).map (·.1)
+
+/-- No identity `(parent, address, ASN)` is registered twice. -/
+def Reg.OneIdPerPeer (r : Reg) : Prop := (r.infos.map (·.2)).Nodup
+
+instance (r : Reg) : Decidable r.OneIdPerPeer := by unfold Reg.OneIdPerPeer; infer_instance
+
+theorem Reg.find_none_iff (r : Reg) (par : Nat) (q : Peer) :
+    r.find (some par) q = none ↔ (par, q) ∉ r.infos.map (·.2) := by
+  rw [Reg.find_eq, Option.map_eq_none_iff, List.find?_eq_none]
+  constructor
+  · intro h hm
+    obtain ⟨e, he, heq⟩ := List.mem_map.mp hm
+    apply h e he
+    simp only [decide_eq_true_eq]
+    exact ⟨by rw [heq], by rw [heq]⟩
+  · intro h e he hp
+    simp only [decide_eq_true_eq] at hp
+    exact h (List.mem_map.mpr ⟨e, he, Prod.ext hp.1 hp.2⟩)
+
+theorem inj_of_nodup_map {α β : Type} (f : α → β) (l : List α) (h : (l.map f).Nodup) (x y : α)
+    (hx : x ∈ l) (hy : y ∈ l) (hxy : f x = f y) : x = y := by
+  induction l with
+  | nil => cases hx
+  | cons a l ih =>
+    simp only [List.map_cons, List.nodup_cons, List.mem_map, not_exists, not_and] at h
+    rcases List.mem_cons.mp hx with rfl | hx' <;> rcases List.mem_cons.mp hy with rfl | hy'
+    · rfl
+    · exact absurd hxy.symm (h.1 y hy')
+    · exact absurd hxy (h.1 x hx')
+    · exact ih h.2 hx' hy'
+
+/-- With identities registered once, the lookup answers *the* id of the peer. -/
+theorem Reg.find_of_mem (r : Reg) (h : r.OneIdPerPeer) (id par : Nat) (q : Peer) (hm : (id, par, q) ∈ r.infos) :
+    r.find (some par) q = some id := by
+  rw [Reg.find_eq]
+  cases hf : r.infos.find? (fun e => decide (e.2.1 = par ∧ e.2.2 = q)) with
+  | none =>
+    rw [List.find?_eq_none] at hf
+    exact absurd (by simp) (hf _ hm)
+  | some e =>
+    have he := List.mem_of_find?_eq_some hf
+    have hp := List.find?_some hf
+    simp only [decide_eq_true_eq] at hp
+    have : e = (id, par, q) :=
+      inj_of_nodup_map (fun (x : Nat × Nat × Peer) => x.2) r.infos h e _ he hm (Prod.ext hp.1 hp.2)
+    simp [this]
+
+theorem Reg.mem_idsOf (r : Reg) (par : Nat) (q : Peer) (id : Nat) :
+    id ∈ r.idsOf par q ↔ (id, par, q) ∈ r.infos := by
+  simp only [Reg.idsOf, List.mem_map, List.mem_filter, decide_eq_true_eq]
+  constructor
+  · rintro ⟨e, ⟨he, h1, h2⟩, rfl⟩
+    obtain ⟨a, b, c⟩ := e
+    simp only at h1 h2
+    subst h1 h2
+    exact he
+  · intro h
+    exact ⟨_, ⟨h, rfl, rfl⟩, rfl⟩
+
+theorem length_le_one_of_nodup_const {α : Type} (a : α) (l : List α) (hn : l.Nodup) (hc : ∀ x ∈ l, x = a) :
+    l.length ≤ 1 := by
+  match l, hn, hc with
+  | [], _, _ => simp
+  | [_], _, _ => simp
+  | x :: y :: l, hn, hc =>
+    have hx := hc x (by simp)
+    have hy := hc y (by simp)
+    simp only [List.nodup_cons, List.mem_cons, not_or] at hn
+    exact absurd (hx.trans hy.symm) hn.1.1
+
+/-- Identities registered once: no peer holds two ids. -/
+theorem Reg.idsOf_length_le_one (r : Reg) (h : r.OneIdPerPeer) (par : Nat) (q : Peer) :
+    (r.idsOf par q).length ≤ 1 := by
+  have hs : ((r.infos.filter fun e => e.2.1 = par ∧ e.2.2 = q).map (·.2)).Nodup :=
+    List.Nodup.sublist (List.Sublist.map _ List.filter_sublist) h
+  have hc : ∀ x ∈ (r.infos.filter fun e => e.2.1 = par ∧ e.2.2 = q).map (·.2), x = (par, q) := by
+    intro x hx
+    obtain ⟨e, he, rfl⟩ := List.mem_map.mp hx
+    simp only [List.mem_filter, decide_eq_true_eq] at he
+    exact Prod.ext he.2.1 he.2.2
+  have := length_le_one_of_nodup_const (par, q) _ hs hc
+  simpa [Reg.idsOf] using this
+
+theorem Reg.OneIdPerPeer_register (r : Reg) (par : Nat) (p : Peer) (h : r.OneIdPerPeer)
+    (hf : r.find (some par) p = none) : (r.register par p).1.OneIdPerPeer := by
+  rw [Reg.find_none_iff] at hf
+  simp only [Reg.OneIdPerPeer, Reg.register, List.map_append, List.map_cons, List.map_nil]
+  rw [List.nodup_append]
+  refine ⟨h, by simp, ?_⟩
+  intro a ha b hb
+  simp only [List.mem_singleton] at hb
+  subst hb
+  intro e
+  exact hf (e ▸ ha)
+
+theorem Reg.OneIdPerPeer_lookupOrRegister (r : Reg) (par : Nat) (p : Peer) (h : r.OneIdPerPeer) :
+    (r.lookupOrRegister par p).1.OneIdPerPeer := by
+  unfold Reg.lookupOrRegister
+  cases hf : r.find (some par) p with
+  | some id => exact h
+  | none => exact r.OneIdPerPeer_register par p h hf
+
+theorem OneIdPerPeer_msgLoop (v : Variant) (par : Nat) (recs : List Rec) (reg : Reg) (h : reg.OneIdPerPeer) :
+    (msgLoop v par reg recs).reg.OneIdPerPeer := by
+  induction recs generalizing reg with
+  | nil => exact h
+  | cons r recs ih =>
+    cases r with
+    | msg p m =>
+      cases m with
+      | update v6 ann wd a => rw [msgLoop_update]; exact ih _ (reg.OneIdPerPeer_lookupOrRegister par p h)
+      | other => simpa [msgLoop] using ih reg h
+      | garbage => simpa [msgLoop] using ih reg h
+    | stateChange p old new => simpa [msgLoop] using ih reg h
+    | peerIndex ps => simpa [msgLoop] using ih reg h
+    | rib v6 pfx es => simpa [msgLoop] using ih reg h
+    | ribOther => simpa [msgLoop] using ih reg h
+    | localMsg => simpa [msgLoop] using h
+    | otherType => simpa [msgLoop] using h
+
+theorem OneIdPerPeer_lookupAll (par : Nat) (ps : List Peer) (r : Reg) (h : r.OneIdPerPeer) :
+    (lookupAll r par ps).1.OneIdPerPeer := by
+  induction ps generalizing r with
+  | nil => exact h
+  | cons p ps ih => rw [lookupAll_cons]; exact ih _ (r.OneIdPerPeer_lookupOrRegister par p h)
+
+theorem processFileD_unreadable (d : Site) (v : Variant) (parent : Nat) (reg : Reg) (f : File)
+    (h : f.comp.readable = false) : processFileD d v parent reg f = ⟨reg, [], .err⟩ := by
+  simp [processFileD, h]
+
+/-- One file, repaired loop: identities registered once stay registered once, whatever the file is
+    (unreadable, panicking half way, dump, update file, both). -/
+theorem OneIdPerPeer_processFileD (v : Variant) (parent : Nat) (reg : Reg) (f : File) (h : reg.OneIdPerPeer) :
+    (processFileD .repaired v parent reg f).reg.OneIdPerPeer := by
+  by_cases hc : f.comp.readable = true
+  · simp only [processFileD, peerIndexLoop, hc, Bool.not_true, Bool.false_eq_true, if_false]
+    split
+    · rename_i ps rest heq
+      have h1 := OneIdPerPeer_lookupAll parent ps reg h
+      split
+      · exact h1
+      · exact OneIdPerPeer_msgLoop _ _ _ _ h1
+    · exact OneIdPerPeer_msgLoop _ _ _ _ h
+  · rw [processFileD_unreadable .repaired v parent reg f (by simpa using hc)]
+    exact h
+
+/-- **C16 (one peer, one id), invariant form.** Repaired peer index loop, any queue of any files, any
+    other variant, starting from a register in which no identity is registered twice (a fresh unit's
+    register, `⟨2, []⟩`, is one): afterwards no identity is registered twice either. -/
+theorem C16_one_id_invariant (v : Variant) (parent : Nat) (fs : List File) (reg : Reg) (h : reg.OneIdPerPeer) :
+    (runQueueD .repaired v parent reg fs).reg.OneIdPerPeer := by
+  induction fs generalizing reg with
+  | nil => exact h
+  | cons f fs ih =>
+    have h1 := OneIdPerPeer_processFileD v parent reg f h
+    simp only [runQueueD]
+    split
+    · exact h1
+    · exact ih _ h1
+
+/-- The clause at full strength: after any queue, no identity `(parent, address, ASN)` holds two
+    ingress ids (given that none did before). -/
+def C16_one_id_full (d : Site) : Prop :=
+  ∀ (v : Variant) (parent : Nat) (reg : Reg) (fs : List File), reg.OneIdPerPeer →
+    ∀ par q, ((runQueueD d v parent reg fs).reg.idsOf par q).length ≤ 1
+
+/-- **Repaired (`find_or_register_peer` in the peer index loop): the clause holds.** -/
+theorem C16_one_id : C16_one_id_full .repaired := by
+  intro v parent reg fs h par q
+  exact Reg.idsOf_length_le_one _ (C16_one_id_invariant v parent fs reg h) par q
+
+example : (⟨2, []⟩ : Reg).OneIdPerPeer := by decide
+example : (runQueueD .repaired repaired 1 ⟨2, []⟩
+    [⟨.plain, [.peerIndex [⟨0, 65001⟩], .rib false 0 [(0, 1)]]⟩, ⟨.plain, [.peerIndex [⟨0, 65001⟩], .rib false 0 [(0, 1)]]⟩]).reg.idsOf 1 ⟨0, 65001⟩ = [2] := by decide
+
+/-- **As written the clause fails**: the same dump queued twice (or the next snapshot of the same
+    collector) leaves peer 10.0.0.1 AS65001 with ids 2 and 3. The engine replays this queue first. -/
+theorem C16_one_id_counterexample : ¬ C16_one_id_full .asWritten := by
+  intro h
+  have := h repaired 1 ⟨2, []⟩
+    [⟨.plain, [.peerIndex [⟨0, 65001⟩], .rib false 0 [(0, 1)]]⟩, ⟨.plain, [.peerIndex [⟨0, 65001⟩], .rib false 0 [(0, 1)]]⟩]
+    (by decide) 1 ⟨0, 65001⟩
+  revert this; decide
+
+/-- **Consequence for attribution (repaired).** After any queue, every registered id is *the* id of
+    its peer: the register answers exactly that id for the peer (so, by `C16_attribution_known`,
+    every later UPDATE of the peer is attributed to it, and, by `C16_state_change`, an
+    Established→Idle state change withdraws it), and no other id is registered for the peer. -/
+theorem C16_one_id_attribution (v : Variant) (parent : Nat) (reg : Reg) (fs : List File) (h : reg.OneIdPerPeer)
+    (id par : Nat) (q : Peer) (hm : (id, par, q) ∈ (runQueueD .repaired v parent reg fs).reg.infos) :
+    (runQueueD .repaired v parent reg fs).reg.find (some par) q = some id ∧
+    ∀ id' ∈ (runQueueD .repaired v parent reg fs).reg.idsOf par q, id' = id := by
+  have hn := C16_one_id_invariant v parent fs reg h
+  refine ⟨Reg.find_of_mem _ hn id par q hm, ?_⟩
+  intro id' hid'
+  have hm' := (Reg.mem_idsOf _ par q id').mp hid'
+  have := inj_of_nodup_map (fun (x : Nat × Nat × Peer) => x.2) _ hn _ _ hm' hm rfl
+  exact congrArg (·.1) this
+
+/-- A peer index table none of whose entries is known, and which lists no peer twice. -/
+def freshTable (reg : Reg) (parent : Nat) (ps : List Peer) : Prop :=
+  ps.Nodup ∧ ∀ p ∈ ps, reg.find (some parent) p = none
+
+instance (reg : Reg) (parent : Nat) (ps : List Peer) : Decidable (freshTable reg parent ps) := by
+  unfold freshTable; infer_instance
+
+theorem registerAll_eq_lookupAll (parent : Nat) (ps : List Peer) (reg : Reg) (h : freshTable reg parent ps) :
+    registerAll reg parent ps = lookupAll reg parent ps := by
+  induction ps generalizing reg with
+  | nil => rfl
+  | cons p ps ih =>
+    obtain ⟨hn, hf⟩ := h
+    simp only [List.nodup_cons] at hn
+    have hp := hf p (by simp)
+    have h1 : freshTable (reg.register parent p).1 parent ps := by
+      refine ⟨hn.2, ?_⟩
+      intro q hq
+      rw [Reg.find_register, hf q (by simp [hq])]
+      have : ¬ (p = q) := fun e => hn.1 (e ▸ hq)
+      simp [this]
+    have := ih _ h1
+    simp only [registerAll, lookupAll, hp]
+    rw [this]
+
+/-- **As written, guarded**: on a file without a peer index table, or whose table is fresh
+    (`freshTable`: names no known peer and no peer twice — decidable), the code as written *is* the
+    repaired code; in particular it keeps identities registered once. -/
+theorem C16_one_id_partial (v : Variant) (parent : Nat) (reg : Reg) (f : File)
+    (hg : ∀ ps rest, f.recs = .peerIndex ps :: rest → freshTable reg parent ps) :
+    processFileD .asWritten v parent reg f = processFileD .repaired v parent reg f ∧
+    (reg.OneIdPerPeer → (processFile v parent reg f).reg.OneIdPerPeer) := by
+  have heq : processFileD .asWritten v parent reg f = processFileD .repaired v parent reg f := by
+    simp only [processFileD, peerIndexLoop]
+    split
+    · rfl
+    · split
+      · rename_i ps rest heq
+        rw [registerAll_eq_lookupAll parent ps reg (hg ps rest heq)]
+      · rfl
+  refine ⟨heq, fun h => ?_⟩
+  rw [← processFileD_asWritten, heq]
+  exact OneIdPerPeer_processFileD v parent reg f h
+
+example : freshTable ⟨3, [(2, 1, ⟨0, 65001⟩)]⟩ 1 [⟨3, 65002⟩, ⟨0, 65002⟩] := by decide
+example : ¬ freshTable ⟨3, [(2, 1, ⟨0, 65001⟩)]⟩ 1 [⟨3, 65002⟩, ⟨0, 65001⟩] := by decide
+
+/-! ### the dump part, repaired loop -/
+
+/-- The spec of the dump part for any `ingress_map`: one `Single` per entry, in file order, with the id the map holds for its peer index. -/
+def dumpSpecBy (map : List Nat) (ribs : List (Bool × Nat × List (Nat × Nat))) : List Upd :=
+  ribs.flatMap fun r => r.2.2.map fun e => .single r.1 r.2.1 (map.getD e.1 0) e.2
+
+theorem dumpEntries_okBy (v6 : Bool) (pfx : Nat) (map : List Nat) (es : List (Nat × Nat))
+    (h : es.all (fun e => e.1 < map.length) = true) :
+    dumpEntries v6 pfx map es = (es.map fun e => .single v6 pfx (map.getD e.1 0) e.2, false) := by
+  induction es with
+  | nil => rfl
+  | cons e es ih =>
+    simp only [List.all_cons, Bool.and_eq_true, decide_eq_true_eq] at h
+    obtain ⟨he, hes⟩ := h
+    obtain ⟨idx, a⟩ := e
+    simp only at he
+    simp [dumpEntries, he, ih hes, List.getD_eq_getElem?_getD]
+
+theorem dumpLoop_okBy (map : List Nat) (ribs : List (Bool × Nat × List (Nat × Nat)))
+    (h : wellFormedRibs map.length ribs = true) :
+    dumpLoop map (ribs.map ribRec) = (dumpSpecBy map ribs, false) := by
+  induction ribs with
+  | nil => rfl
+  | cons r ribs ih =>
+    obtain ⟨v6, pfx, es⟩ := r
+    simp only [wellFormedRibs, Bool.and_eq_true, Bool.not_eq_true', List.isEmpty_eq_false_iff] at h
+    obtain ⟨⟨hne, hall⟩, hrest⟩ := h
+    cases es with
+    | nil => exact absurd rfl hne
+    | cons e es =>
+      simp only [List.map_cons, ribRec, dumpLoop, dumpEntries_okBy v6 pfx map (e :: es) hall, ih hrest]
+      simp [dumpSpecBy]
+
+/-- The repaired peer index loop: one map slot per entry; afterwards the register answers, for the
+    peer of every entry, the id in that entry's slot. -/
+theorem lookupAll_spec (parent : Nat) (ps : List Peer) (r : Reg) :
+    (lookupAll r parent ps).2.length = ps.length ∧
+    ∀ i (hi : i < ps.length), (lookupAll r parent ps).1.find (some parent) ps[i] = some ((lookupAll r parent ps).2.getD i 0) := by
+  induction ps generalizing r with
+  | nil => exact ⟨rfl, fun i hi => absurd hi (by simp)⟩
+  | cons p ps ih =>
+    obtain ⟨h1, h2⟩ := ih (r.lookupOrRegister parent p).1
+    rw [lookupAll_cons]
+    refine ⟨by simp [h1], ?_⟩
+    intro i hi
+    cases i with
+    | zero =>
+      simp only [List.getElem_cons_zero, List.getD_cons_zero]
+      exact lookupAll_find_mono parent ps _ p _ (r.lookupOrRegister_find parent p)
+    | succ i =>
+      simp only [List.getElem_cons_succ, List.getD_cons_succ]
+      exact h2 i (by simpa using hi)
+
+/-- **C16 (dump), repaired peer index loop.** For every readable file made of a peer index table of
+    any size followed by any number of well-formed unicast RIB records, from any register: exactly
+    one `Single` per RIB entry, in file order, carrying the id in its peer's slot of the map; that id
+    is the one the register answers for the entry's peer afterwards; **a peer the register knew
+    before keeps its id** (also when the table lists a peer twice: both slots hold one id); the file
+    ends normally. -/
+theorem C16_dump_repaired (v : Variant) (parent : Nat) (reg : Reg) (c : Comp) (hc : c.readable = true)
+    (ps : List Peer) (ribs : List (Bool × Nat × List (Nat × Nat)))
+    (h : wellFormedRibs ps.length ribs = true) :
+    let r := processFileD .repaired v parent reg ⟨c, .peerIndex ps :: ribs.map ribRec⟩
+    let map := (lookupAll reg parent ps).2
+    r.out = dumpSpecBy map ribs ∧ r.status = .ok ∧ r.reg = (lookupAll reg parent ps).1 ∧
+    (∀ i (hi : i < ps.length), r.reg.find (some parent) ps[i] = some (map.getD i 0)) ∧
+    (∀ i (hi : i < ps.length) id, reg.find (some parent) ps[i] = some id → map.getD i 0 = id) := by
+  obtain ⟨h1, h2⟩ := lookupAll_spec parent ps reg
+  have hr : processFileD .repaired v parent reg ⟨c, .peerIndex ps :: ribs.map ribRec⟩ =
+      ⟨(lookupAll reg parent ps).1, dumpSpecBy (lookupAll reg parent ps).2 ribs, .ok⟩ := by
+    simp only [processFileD, peerIndexLoop, hc, Bool.not_true, Bool.false_eq_true, if_false]
+    rw [dumpLoop_okBy _ ribs (by rw [h1]; exact h)]
+    simp only [msgLoop, msgLoop_ribs]
+    simp
+  simp only [hr, true_and]
+  refine ⟨h2, ?_⟩
+  intro i hi id hid
+  have := lookupAll_find_mono parent ps reg ps[i] id hid
+  rw [h2 i hi] at this
+  exact Option.some.inj this
+
+-- the second snapshot of a collector: the known peer keeps id 2, the new one gets 3; a table listing a peer twice
+example : (processFileD .repaired repaired 1 ⟨3, [(2, 1, ⟨0, 65001⟩)]⟩ ⟨.gzip, [.peerIndex [⟨3, 65002⟩, ⟨0, 65001⟩], .rib false 0 [(0, 1), (1, 2)]]⟩).out
+    = [.single false 0 3 1, .single false 0 2 2] := by decide
+example : (processFileD .repaired repaired 1 ⟨2, []⟩ ⟨.plain, [.peerIndex [⟨0, 65001⟩, ⟨0, 65001⟩], .rib false 0 [(0, 1), (1, 2)]]⟩).out
+    = [.single false 0 2 1, .single false 0 2 2] := by decide
+
+/-! ### the queue, either loop -/
+
+/-- **C16 (queue order)**, either peer index loop. -/
+theorem C16_queue_order_dumpreg (d : Site) (v : Variant) (parent : Nat) (reg : Reg) (f : File) (fs : List File)
+    (h : (processFileD d v parent reg f).status ≠ .panic) :
+    runQueueD d v parent reg (f :: fs) =
+      ⟨(runQueueD d v parent (processFileD d v parent reg f).reg fs).reg,
+       (processFileD d v parent reg f).out ++ (runQueueD d v parent (processFileD d v parent reg f).reg fs).out,
+       true :: (runQueueD d v parent (processFileD d v parent reg f).reg fs).resps⟩ := by
+  simp only [runQueueD]
+  split
+  · rename_i hs _; exact absurd hs h
+  · rfl
+
+/-- **C16 (an unreadable file affects only itself)**, either peer index loop. -/
+theorem C16_unreadable_isolated_dumpreg (d : Site) (v : Variant) (parent : Nat) (reg : Reg) (f : File) (fs : List File)
+    (h : f.comp.readable = false) :
+    runQueueD d v parent reg (f :: fs) =
+      ⟨(runQueueD d v parent reg fs).reg, (runQueueD d v parent reg fs).out, true :: (runQueueD d v parent reg fs).resps⟩ := by
+  have hp := processFileD_unreadable d v parent reg f h
+  rw [C16_queue_order_dumpreg d v parent reg f fs (by rw [hp]; simp), hp]
+  simp
+
+def C16_isolation_fullD (d : Site) (v : Variant) : Prop :=
+  ∀ parent reg f fs,
+    (runQueueD d v parent reg (f :: fs)).resps = true :: (runQueueD d v parent (processFileD d v parent reg f).reg fs).resps ∧
+    (runQueueD d v parent reg (f :: fs)).out = (processFileD d v parent reg f).out ++ (runQueueD d v parent (processFileD d v parent reg f).reg fs).out
+
+/-- **Full isolation (each file in its own task)**, either peer index loop. -/
+theorem C16_isolation_dumpreg (d : Site) (v : Variant) (hv : v.iso = .repaired) : C16_isolation_fullD d v := by
+  intro parent reg f fs
+  simp only [runQueueD, hv]
+  split
+  · rename_i h; cases h
+  · simp
+
 end Rotonda.Mrt
